@@ -156,13 +156,19 @@ def letter_cut(repo):
     vdef = {n.targets[0].id: n.value for n in f_isl.body_nodes() if isinstance(n, ast.Assign) and isinstance(n.targets[0], ast.Name)}
     if len(rets) != 1:
         raise AnalysisError('C14.1: %s is no longer a single return expression' % f_isl.name)
+    from ..peval import module_resolver as _mres
+    _res_isl = _mres(repo, f_isl.module)
     accepted = set()
+    import string as _string_mod
+    env_names = {nm: getattr(_string_mod, b[2]) for nm, b in repo.module_scope(f_isl.module).items()
+                 if b[0] == 'from' and b[1] == 'string' and isinstance(getattr(_string_mod, b[2], None), str)}     # from string import ascii_letters
     for ch in range(0, 0x250):
-        env = {f_isl.params()[0]: chr(ch)}
+        env = dict(env_names)
+        env[f_isl.params()[0]] = chr(ch)
         try:
             for k, v in vdef.items():
-                env[k] = fold(v, env, STR)
-            if fold(rets[0].value, env, STR):
+                env[k] = fold(v, env, STR, _res_isl)
+            if fold(rets[0].value, env, STR, _res_isl):
                 accepted.add(ch)
         except Unfoldable as ex_:
             raise AnalysisError('C14.1: cannot evaluate %s: %s' % (f_isl.name, ex_))
@@ -173,10 +179,10 @@ def letter_cut(repo):
 
 def run(ctx):
     repo = ctx.repo
-    ctx.decided = ['C14.1 lexing agreement between displayed letters and the matcher\'s letter test', 'C14.2 same (id, generation) pair on both sides, shared radix/alphabet constants',
+    ctx.decided = ['C14.1 lexing agreement between displayed letters and the matcher\'s letter test', 'C14.2 same (id, generation) pair on both sides; encoder and decoder are the bijective base-26 numeration and its inverse for every label of up to K letters (folded)',
                    'C14.3 connection names: displayed name is the name matched, names are never reused',
                    'C14.4 a pattern selects exactly the messages on / creating / destroying the object; the bare form adds messages mentioning it']
-    ctx.undecided = ['bijectivity / gap-freeness of the base-26 conversion for every index (arithmetic: needs induction or exhaustive execution)',
+    ctx.undecided = ['the base-26 conversion for labels longer than %d letters (decided by folding up to that length; beyond it needs induction)' % (3 if ctx.tier == 'thorough' else 2),
                      'selection semantics of the bare-object matcher (C05)']
     f_enc = repo.func('letter_id_generator.number_to_letter_id')
     f_dec = repo.func('letter_id_generator.letter_id_to_number')
@@ -266,42 +272,86 @@ def run(ctx):
 
     # ---- C14.2 ------------------------------------------------------------------------------------------
     from .common import scope_nodes
-    def cval(x):
-        if isinstance(x, ast.Constant):
-            return x.value
-        if isinstance(x, ast.Name):
-            r_ = repo.lookup(f_enc.module, x.id)
-            if r_ and r_[0] == 'var' and isinstance(r_[1], ast.Constant):
-                return r_[1].value
-        return None
+    # The arithmetic of both directions is decided by folding the terms their paths return (nothing of the repository is executed: the
+    # path interpreter produces the term, sa/peval interprets it on constants): the encoder for every index whose label has up to K letters,
+    # the decoder for every label of up to K letters, both against the bijective base-26 numeration a, b, .. z, aa, ab, ..  So the two agree
+    # with each other, distinct indices get distinct labels, and a typed label names the incarnation that displays it - for K = 2 (thorough: 3).
+    from ..peval import fold as _fold, Unfoldable as _Unf, module_resolver as _mres2
+    from ..sim import deep_ast as _deep_ast
+    from .common import paths_for_input as _pfi
+    K = 3 if ctx.tier == 'thorough' else 2
+    res_lig = _mres2(repo, f_enc.module)
 
-    class _C:           # adapter so that the code below can keep using `.value` / isinstance(..., ast.Constant)
-        pass
-
-    def radix_consts(f):
-        out = set()
-        for g__, n in scope_nodes(repo, f):
-            if isinstance(n, ast.Call) and norm(n.func) == 'divmod' and len(n.args) == 2 and cval(n.args[1]) is not None:
-                out.add(cval(n.args[1]))
-            for fld in ('right', 'value'):
-                v_ = getattr(n, fld, None)
-                if isinstance(v_, ast.Name) and cval(v_) is not None and isinstance(n, (ast.BinOp, ast.AugAssign)) and isinstance(n.op, (ast.Mod, ast.FloorDiv, ast.Mult)):
-                    out.add(cval(v_))
-            if isinstance(n, ast.Compare) and isinstance(n.comparators[-1], ast.Name) and isinstance(cval(n.comparators[-1]), int) and cval(n.comparators[-1]) > 1 \
-                    and isinstance(n.ops[-1], (ast.Lt, ast.LtE)):
-                out.add(cval(n.comparators[-1]))
-            if isinstance(n, ast.BinOp) and isinstance(n.op, (ast.Mod, ast.FloorDiv, ast.Mult)) and isinstance(n.right, ast.Constant):
-                out.add(n.right.value)
-            if isinstance(n, ast.AugAssign) and isinstance(n.op, (ast.FloorDiv, ast.Mult, ast.Mod)) and isinstance(n.value, ast.Constant):
-                out.add(n.value.value)
-            if isinstance(n, ast.Compare) and isinstance(n.ops[0], (ast.Lt, ast.LtE)) and isinstance(n.comparators[-1], ast.Constant) and isinstance(n.comparators[-1].value, int) and n.comparators[-1].value > 1:
-                out.add(n.comparators[-1].value)
+    def spec_label(n, caps):
+        out, n = '', n + 1
+        while n > 0:
+            n -= 1
+            out = chr(n % 26 + (65 if caps else 97)) + out
+            n //= 26
         return out
-    re_, rd = radix_consts(f_enc), radix_consts(f_dec)
-    ctx.check(re_ == {26} and rd == {26}, 'C14.2', 'radix:agree', f_enc.loc(), 'encoder and decoder use the same radix 26', 'encoder radix constants %s, decoder %s' % (sorted(re_), sorted(rd)))
-    dec_base = [n for g__, n in scope_nodes(repo, f_dec) if isinstance(n, ast.BinOp) and isinstance(n.op, ast.Sub) and norm(n.left).startswith('ord(')]
-    ctx.check(len(dec_base) == 1 and norm(dec_base[0].right) == "ord('a')" and any(isinstance(n, ast.Call) and norm(n.func).endswith('.lower') for n in f_dec.body_nodes()), 'C14.2', 'alphabet:decoder-base', f_dec.loc(),
-              "the decoder lower-cases and subtracts ord('a')", 'decoder base is %s' % [norm(n) for n in dec_base])
+    limit = sum(26 ** j for j in range(1, K + 1))
+    enc_paths = paths_of(repo, f_enc, while_unroll=K + 1, asserts='ignore')
+    pv, pc = f_enc.params()[0], f_enc.params()[1]
+    bad_enc = None
+    n_enc = 0
+    samples = range(limit) if limit <= 800 else list(range(0, 800)) + list(range(limit - 60, limit)) + list(range(800, limit, 97))
+    for n in samples:
+        for caps in (True, False):
+            env = {pv: n, pc: caps}
+            outs = set()
+            for p in _pfi(enc_paths, env, None, res_lig):
+                if p.outcome[0] != 'return':
+                    outs.add(p.outcome[0])
+                    continue
+                try:
+                    outs.add(_fold(_deep_ast(p.outcome[1]), env, None, res_lig))
+                except _Unf as ex_:
+                    outs.add('not evaluable: %s' % ex_)
+            n_enc += 1
+            if outs != {spec_label(n, caps)} and bad_enc is None:
+                bad_enc = (n, caps, sorted(map(str, outs)), spec_label(n, caps))
+    ctx.check(bad_enc is None, 'C14.2', 'letters:encoder-is-bijective-base-26', f_enc.loc(),
+              'index n is displayed as the n-th word of a, b, .., z, aa, ab, .. (capitals for connections) for every n below %d' % limit,
+              'number_to_letter_id(%s, caps=%s) gives %s, the numeration says %r' % (bad_enc if bad_enc else ('', '', '', '')))
+    ctx.floor('C14.2', n_enc, 2 * min(limit, 700), 'encoder evaluations')
+    dec_paths = [p for p in paths_of(repo, f_dec, unroll=K, asserts='ignore') if p.outcome[0] == 'return']
+    bad_dec = None
+    n_dec = 0
+    import itertools as _it
+    pt = f_dec.params()[0]
+    for p in dec_paths:
+        term = _deep_ast(p.outcome[1])
+        elems = sorted(set(re.findall(r'<elem(\d+) of ([^<>]+)>', norm(term))))
+        k = len(elems)
+        if k == 0:
+            continue        # the empty label (guarded by an assertion / by the caller: C18 triage)
+        srcs = {s_ for _, s_ in elems}
+        if not srcs <= {pt, pt + '.lower()'} or [int(i_) for i_, _ in elems] != list(range(k)):
+            bad_dec = bad_dec or ('?', 'the label is not read letter by letter, first to last: %s' % sorted(srcs), '')
+            continue
+        lower_only = srcs == {pt + '.lower()'}
+        alphabet = 'abcdefghijklmnopqrstuvwxyz' + ('' if lower_only else 'ABCDEFGHIJKLMNOPQRSTUVWXYZ')
+        if not lower_only and k > 1:
+            alphabet = 'abcxyzABXZ' if k > 2 else alphabet
+        for word in _it.product(alphabet, repeat=k):
+            n_dec += 1
+            texts = {'<elem%s of %s>' % (i_, s_): word[int(i_)] for i_, s_ in elems}
+            want = None
+            w = ''.join(word).lower()
+            acc_ = 0
+            for ch in w:
+                acc_ = acc_ * 26 + (ord(ch) - 96)
+            want = acc_ - 1
+            try:
+                got = _fold(term, {}, texts, res_lig)
+            except _Unf as ex_:
+                got = 'not evaluable: %s' % ex_
+            if got != want and bad_dec is None:
+                bad_dec = (''.join(word), got, want)
+    ctx.check(bad_dec is None, 'C14.2', 'letters:decoder-is-its-inverse', f_dec.loc(),
+              'a typed label of up to %d letters (either case) names the index that is displayed with it' % K,
+              'letter_id_to_number(%r) gives %s, the numeration says %s' % (bad_dec if bad_dec else ('', '', '')))
+    ctx.floor('C14.2', n_dec, 26 + 100, 'decoder evaluations')
     f_oim = repo.func('ObjectIdMatcher.matches')
     for p in paths_of(repo, f_oim):
         if p.outcome[0] != 'return':
